@@ -331,6 +331,24 @@ theorem reachable_inv {fuel : Nat} {w : World} (h : Reachable fuel w) : Inv w.ms
   obtain ⟨m, s, self, bank, sink, ops, hi, rfl⟩ := h
   exact run_state_inv Inv (fun _ _ _ _ _ _ hi h => execute_inv hi h) fuel ops _ (instantiate_inv hi)
 
+/-! ## histories whose blocks never go back -/
+
+def blockLe (a b : Block) : Prop := a.height ≤ b.height ∧ a.time ≤ b.time
+
+/-- Worlds reachable by a history whose blocks never go back; the second argument is the block of
+the last operation (any block for the freshly instantiated world). -/
+inductive ReachableAt (fuel : Nat) : World → Block → Prop
+  | init {m : InstMsg} {s : State} (self : Addr) (bank : AMap (Addr × String) Nat) (sink : Bool) (b : Block) :
+      instantiate m = .ok s → ReachableAt fuel (World.init s self bank sink) b
+  | step {w : World} {b : Block} (op : Op) : ReachableAt fuel w b → blockLe b op.blk → ReachableAt fuel (step fuel w op) op.blk
+
+theorem ReachableAt.reachable {fuel : Nat} {w : World} {b : Block} (h : ReachableAt fuel w b) : Reachable fuel w := by
+  induction h with
+  | init self bank sink b hi => exact ⟨_, _, self, bank, sink, [], hi, rfl⟩
+  | step op _ _ ih =>
+    obtain ⟨m, s, self, bank, sink, ops, hi, rfl⟩ := ih
+    exact ⟨m, s, self, bank, sink, ops ++ [op], hi, by simp [run, List.foldl_append]⟩
+
 /-- A relation between the state at the start of a history and the state at its end, given that it
 is reflexive, transitive and holds across every handler call from a state satisfying `Inv`. -/
 theorem run_rel (R : State → State → Prop) (hrefl : ∀ s, R s s) (htrans : ∀ a b c, R a b → R b c → R a c)
